@@ -186,6 +186,7 @@ class Context:
 
     def finish(self):
         wall = time.time() - self.t0
+        VERIF = os.environ.get('VERIF_OUT') or globals()['VERIF']   # mutant / experiment runs write elsewhere
         os.makedirs(os.path.join(VERIF, 'evidence'), exist_ok=True)
         os.makedirs(os.path.join(VERIF, 'replays'), exist_ok=True)
         n_new = 0
